@@ -196,7 +196,8 @@ impl ContentResolver {
     pub fn clear_caches(&self) {
         self.path_cache.clear();
         self.content_cache.clear();
-        self.file_data_id_map.clear();
+        // file_data_id_map is not a cache: it is filled once by load_root_file and
+        // nothing refills it on a miss
     }
 
     /// Get the size of content by content key
